@@ -208,6 +208,8 @@ def search(ctx):
                 ctx.violation('connect.raises', f'connect_circuit raised {r["err"]}', input={'base': base, 'step': st_run})
             continue
         ctx.count('connect:ok:' + ('right' if right else 'left'))
+        if k % 2 == 0:
+            aliasing_probe(ctx, base, st_run)
         # interface
         otype = {g[0]: g[1] for g in other['gates']}
         exp_in = [i for i in base['inputs'] if not (right and i in thisc and otype[otherc[thisc.index(i)]] != 'INPUT')] \
@@ -248,6 +250,53 @@ def search(ctx):
     for (base, st), verdict in zip(wf_origin, check_wf(ctx, wf_states)):
         if verdict != 'ok':
             ctx.violation('connect.not_wellformed', f'after connect_circuit: {verdict}', input={'base': base, 'step': st_run})
+
+
+def aliasing_probe(ctx, base, st_run):
+    """the composition shares no list with the attached circuit: editing the result afterwards (renaming its gates)
+    leaves the attached circuit as it was, and editing the attached circuit afterwards leaves the recorded block as
+    it was"""
+    from props.mutcommon import apply_step
+    import props.mutcommon as M
+    try:
+        c = circ_from_json(base)
+        st = documented(base, st_run)
+        other = circ_from_json(st[1])
+        before = circ_to_json(other)
+        c.connect_circuit(other, list(st[2]), list(st[3]), right_connect=st[4], name=st[5], add_prefix=st[6])
+    except Exception:  # noqa: BLE001
+        return
+    ctx.count('aliasing_probe')
+    name = st[5]
+    blk_before = None
+    if name:
+        b = c.get_block(name)
+        blk_before = (list(b.inputs), sorted(b.gates), list(b.outputs))
+    # (1) edit the attached circuit
+    try:
+        for l in list(other.gates)[:2]:
+            other.mark_as_output(l)
+            if other.get_gate(l).gate_type.name != 'INPUT':
+                other.rename_gate(l, 'later_' + l)
+    except Exception:  # noqa: BLE001
+        pass
+    if name:
+        b = c.get_block(name)
+        if (list(b.inputs), sorted(b.gates), list(b.outputs)) != blk_before:
+            ctx.violation('connect.shares_state', 'editing the attached circuit after the composition changed the block recorded in the result',
+                          input={'base': base, 'step': st_run})
+            return
+    # (2) rename the gates of the result
+    other2 = circ_from_json(st[1])
+    c2 = circ_from_json(base)
+    try:
+        c2.connect_circuit(other2, list(st[2]), list(st[3]), right_connect=st[4], name=st[5], add_prefix=st[6])
+        for l in list(c2.gates):
+            c2.rename_gate(l, 'rn~' + l)
+    except Exception:  # noqa: BLE001
+        return
+    if circ_to_json(other2) != before:
+        ctx.violation('connect.shares_state', 'renaming gates of the result modified the attached circuit', input={'base': base, 'step': st_run})
 
 
 def replay(ctx, rp):
